@@ -26,6 +26,48 @@ fn check_doc_pre(ctx: &mut Ctx, text: &str, all_pairs: bool, previous: Option<&s
         vfs.set_path_content(VfsPath::new("/d/src/a.gleam"), p.to_string());
     }
     let file = vfs.set_path_content(VfsPath::new("/d/src/a.gleam"), text.to_string());
+    check_map(ctx, &vfs, file, text, all_pairs, case)
+}
+
+/// The document is reached through incremental edits (the way an editor gets there): the line
+/// table the server holds AFTER them is what every later position is converted with.
+/// Ok(None): the edits were not applicable (C13's business).
+fn check_doc_edited(ctx: &mut Ctx, open: &str, edits: &[super::c13::Edit]) -> Result<Option<bool>, Failure> {
+    use text_size::{TextRange, TextSize};
+    let case = json!({"open": open, "edits": edits.iter().map(super::c13::edit_json).collect::<Vec<_>>()});
+    let mut model = ClientDoc::new(open);
+    let mut vfs = Vfs::new();
+    let file = vfs.set_path_content(VfsPath::new("/d/src/a.gleam"), open.to_string());
+    for e in edits {
+        let applied = match e.range {
+            None => {
+                model.text = e.text.clone();
+                panics::catch(|| vfs.change_file_content(file, None, &e.text).is_ok()).unwrap_or(false)
+            }
+            Some((s, t)) => {
+                let (Some(cs), Some(ct)) = (model.canonical(s), model.canonical(t)) else { return Ok(None) };
+                if !model.apply(cs, ct, &e.text) {
+                    return Ok(None);
+                }
+                panics::catch(|| match glas::verif::from_range(&vfs, file, (s.line, s.col, t.line, t.col)) {
+                    Some((a, b)) if a <= b => vfs.change_file_content(file, Some(TextRange::new(TextSize::from(a), TextSize::from(b))), &e.text).is_ok(),
+                    _ => false,
+                })
+                .unwrap_or(false)
+            }
+        };
+        if !applied {
+            return Ok(None);
+        }
+    }
+    let text = model.server_view();
+    if *vfs.content_for_file(file) != *text {
+        return Ok(None);
+    }
+    check_map(ctx, &vfs, file, &text, text.len() <= 24, case).map(Some)
+}
+
+fn check_map(ctx: &mut Ctx, vfs: &Vfs, file: ide::FileId, text: &str, all_pairs: bool, case: Value) -> Result<bool, Failure> {
     let content = vfs.content_for_file(file);
     if &*content != text {
         return Err(Failure::new(
@@ -83,6 +125,26 @@ fn check_doc_pre(ctx: &mut Ctx, text: &str, all_pairs: bool, previous: Option<&s
         }
         positions.push((o, (l, c)));
     }
+    // LSP 3.17: "if the character value is greater than the line length it defaults back to the
+    // line length" - a client may send such a column; it means the end of the line's content
+    for (li, (_s, e)) in doc.lines().into_iter().enumerate() {
+        let Some(end) = doc.pos_of(e) else { continue };
+        for extra in [1u32, 2, 3, 1000] {
+            ctx.eval();
+            let col = end.col + extra;
+            let got = match panics::catch(|| glas::verif::from_pos(&lm, li as u32, col)) {
+                Ok(g) => g,
+                Err(p) => return Err(Failure::new(format!("from_pos panicked for line {} column {} (past the line's end {}): {}", li, col, end.col, p.message), case).sig("kind", "panic")),
+            };
+            if got != Some(e as u32) {
+                return Err(Failure::new(
+                    format!("line {} column {} lies past the line's content (which ends at column {}, offset {}): by LSP it means the line end, the server converts it to {:?}", li, col, end.col, e, got),
+                    case,
+                )
+                .sig("kind", "past-line-end"));
+            }
+        }
+    }
     // ranges: the client-side slice of to_range(a..b) is doc[a..b]
     let n = positions.len();
     let step = if all_pairs { 1 } else { (n / 40).max(1) };
@@ -124,7 +186,7 @@ impl Property for C14 {
         "C14"
     }
     fn rule(&self) -> String {
-        "cases: ALL documents of <=6 (quick) / <=8 (thorough) symbols over {a, LF, é (2-byte), ℝ (3-byte), 💣 (4-byte, surrogate pair)} and all documents one symbol shorter over an 8-symbol alphabet with a representative at both edges of every UTF-8 length class (U+0434, U+07FF, U+0800, U+FF0E, U+10000, U+10FFFF), a third of them installed over a different previous content of the same path x every char boundary (offset->position->offset identity, strict monotonicity, agreement with an independent LSP client model) x every ordered pair of boundaries (client-side UTF-16 slice of the sent range == server's byte slice); plus proptest-generated documents of up to 3000 symbols (sampled pairs). evaluations = individual position and range conversions. Non-trivial = document with a multi-byte character and >= 2 lines; distinct by document hash.".into()
+        "cases: ALL documents of <=6 (quick) / <=8 (thorough) symbols over {a, LF, é (2-byte), ℝ (3-byte), 💣 (4-byte, surrogate pair)} and all documents one symbol shorter over an 8-symbol alphabet with a representative at both edges of every UTF-8 length class (U+0434, U+07FF, U+0800, U+FF0E, U+10000, U+10FFFF), a third of them installed over a different previous content of the same path x every char boundary (offset->position->offset identity, strict monotonicity, agreement with an independent LSP client model) x every ordered pair of boundaries (client-side UTF-16 slice of the sent range == server's byte slice); plus proptest-generated documents of up to 3000 symbols (sampled pairs); plus documents REACHED THROUGH EDITS (the line table the server keeps after change_file_content): every document of <=4 symbols x every position pair x every replacement of <=1 symbol, and proptest-generated histories of 1-4 edits (ASCII edits in front of multi-byte characters of the same line, joins/splits of lines, columns past the line end). A column past the end of a line must convert to the line end (LSP 3.17). evaluations = individual position and range conversions. Non-trivial = document with a multi-byte character and >= 2 lines; distinct by document hash.".into()
     }
     fn assumptions(&self) -> Vec<String> {
         vec!["conversions are reached through the `verif` hook wrappers (glas::verif::{from_pos,to_range}) around the crate-private functions every handler uses".into()]
@@ -217,6 +279,41 @@ impl Property for C14 {
             }
         }
         ctx.space("documents over the 8-symbol class-edge alphabet", total2);
+        // documents reached through ONE incremental edit: every document of <= 4 symbols x every
+        // position pair x every replacement of <= 1 symbol (the single edits C13 enumerates), the
+        // resulting line table checked at every boundary
+        let docs = super::c13::strings_upto(ctx.tier.pick(4, 5));
+        let reps = super::c13::strings_upto(1);
+        let mut total3 = 0u64;
+        for (k, d) in docs.iter().enumerate() {
+            let doc = ClientDoc::new(d);
+            let ps = doc.positions();
+            total3 += (ps.len() * (ps.len() + 1) / 2 * reps.len()) as u64;
+            if !ctx.mine(k as u64) {
+                continue;
+            }
+            for i in 0..ps.len() {
+                for j in i..ps.len() {
+                    for r in &reps {
+                        let e = super::c13::Edit { range: Some((ps[i].0, ps[j].0)), text: r.clone() };
+                        match check_doc_edited(ctx, d, std::slice::from_ref(&e)) {
+                            Ok(Some(nt)) => {
+                                if nt {
+                                    local.insert(hash_str(&format!("{}\u{0}{}:{}\u{0}{}", d, i, j, r)));
+                                }
+                                ctx.class("line table after an incremental edit");
+                            }
+                            Ok(None) => ctx.excluded("edit not applied (C13's subject)"),
+                            Err(f) => {
+                                ctx.fail(f);
+                                return;
+                            }
+                        }
+                    }
+                }
+            }
+        }
+        ctx.space("documents x position pairs x replacements (line table after one edit)", total3);
         ctx.stats.nt_disjoint += local.len() as u64;
         }
         let cases = ctx.tier.pick(8_000, 50_000);
@@ -234,8 +331,52 @@ impl Property for C14 {
             ctx.sample("long random document", || json!({"text": clip(&text, 120), "bytes": text.len()}));
             Ok(())
         });
+        // edit histories on longer lines: ASCII edits in front of multi-byte characters of the same
+        // line, edits that join or split lines, several edits in a row
+        let hist = ctx.tier.pick(60_000, 600_000);
+        ctx.run_streams("c14-edited", hist, 160, |ctx, bytes| {
+            let mut c = Choices::new(bytes);
+            let mut open = String::new();
+            for _ in 0..c.below(24) {
+                open.push_str(["a", "b", " ", "\n", "é", "ℝ", "💣", "\r\n", "xy"][c.weighted(&[5, 3, 2, 2, 2, 2, 2, 1, 2])]);
+            }
+            let mut model = ClientDoc::new(&open);
+            let mut edits = vec![];
+            for _ in 0..1 + c.below(4) {
+                let mut e = super::c13::gen_edit(&mut c, &model);
+                if c.chance(128) {
+                    // plain ASCII on one line: the cheapest edit there is
+                    e.text = ["x", "ab", "", "q r"][c.below(4)].to_string();
+                }
+                match e.range {
+                    None => model.text = e.text.clone(),
+                    Some((s, t)) => {
+                        let (Some(cs), Some(ct)) = (model.canonical(s), model.canonical(t)) else { break };
+                        if !model.apply(cs, ct, &e.text) {
+                            break;
+                        }
+                    }
+                }
+                edits.push(e);
+            }
+            match check_doc_edited(ctx, &open, &edits)? {
+                Some(nt) => {
+                    if nt {
+                        ctx.nontrivial(hash_str(&format!("{}{:?}", open, edits.iter().map(super::c13::edit_json).collect::<Vec<_>>())));
+                    }
+                    ctx.class("line table after an edit history");
+                }
+                None => ctx.excluded("edit not applied (C13's subject)"),
+            }
+            ctx.sample("edit history", || json!({"open": clip(&open, 80), "edits": edits.iter().map(super::c13::edit_json).collect::<Vec<_>>()}));
+            Ok(())
+        });
     }
     fn replay(&self, ctx: &mut Ctx, case: &Value) -> Result<(), Failure> {
+        if let Some(open) = case.get("open").and_then(|o| o.as_str()) {
+            let edits: Vec<super::c13::Edit> = case["edits"].as_array().map(|a| a.iter().map(super::c13::edit_from_json).collect()).unwrap_or_default();
+            return check_doc_edited(ctx, open, &edits).map(|_| ());
+        }
         check_doc_pre(ctx, case["text"].as_str().unwrap_or(""), true, case["previous"].as_str()).map(|_| ())
     }
 }
